@@ -40,8 +40,8 @@ impl Prop for C16 {
 
     fn budget(tier: Tier) -> Budget {
         match tier {
-            Tier::Quick => Budget { cases: 8000, shards: 16 },
-            Tier::Thorough => Budget { cases: 400_000, shards: 16 },
+            Tier::Quick => Budget { cases: 120000, shards: 16 },
+            Tier::Thorough => Budget { cases: 960000, shards: 16 },
         }
     }
 
